@@ -70,7 +70,7 @@ def seeded_table():
 
 def harmless_table():
     d = os.path.join(VERIF, 'seeded_harmless')
-    rows = ['| rewrite | what | checks run | alarms |', '|---|---|---|---|']
+    rows = ['| rewrite | what | checks run (those that read a rewritten module) | alarms (VIOLATION lines) |', '|---|---|---|---|']
     for sid in sorted(os.listdir(d)):
         mp = os.path.join(d, sid, 'meta.json')
         rp = os.path.join(d, sid, 'result.json')
@@ -78,9 +78,11 @@ def harmless_table():
             continue
         m = json.load(open(mp))
         r = json.load(open(rp)) if os.path.exists(rp) else {'checks': {}}
-        ex = {p: v.get('exit') for p, v in r.get('checks', {}).items()}
-        bad = [p for p, x in ex.items() if x != 0]
-        rows.append('| %s | %s | %s | %s |' % (sid, m.get('title', '')[:140].replace('|', '\\|'), ' '.join(sorted(ex)), ' '.join(bad) or 'none'))
+        ran = {p: v.get('exit') for p, v in r.get('checks', {}).items() if not v.get('skipped')}
+        viol = [p for p, v in r.get('checks', {}).items() if any(l.startswith('VIOLATION') for l in v.get('lines', []))]
+        und = [p for p, x in ran.items() if x == 2]
+        rows.append('| %s | %s | %s | %s%s |' % (sid, m.get('title', '')[:140].replace('|', '\\|'), ' '.join(sorted(ran)),
+                                                 ' '.join(viol) or 'none', (' (undecided, exit 2: %s)' % ' '.join(und)) if und else ''))
     return '\n'.join(rows)
 
 
